@@ -126,6 +126,20 @@ func c06enumerate(emit func(c c06case)) {
 			emit(c06case{Key: "s3", NLen: nl, PtLen: 33, AadLen: 5, Tag: tag, Group: "tag"})
 		}
 	}
+	// (g) large messages: lengths around 2^11, 2^12, 2^13, 2^16 (and 2^20 in the thorough tier), as plaintext and as aad
+	large := []int{2047, 2048, 2049, 4095, 4096, 4097, 8192, 8192 + 255, 16384 + 5, 65535, 65536, 65537}
+	if th {
+		large = append(large, 1<<20-1, 1<<20, 1<<20+17)
+	}
+	for _, l := range large {
+		for _, o := range []int{0, 13} {
+			for _, nl := range []int{12, 16} {
+				emit(c06case{Key: "s5", NLen: nl, PtLen: l, AadLen: o, Tag: 16, Group: "large-pt"})
+				emit(c06case{Key: "s5", NLen: nl, PtLen: o + 20, AadLen: l, Tag: 16, Group: "large-aad"})
+			}
+		}
+		emit(c06case{Key: "std", NLen: 12, PtLen: l, AadLen: l, Tag: 12, Group: "large-both"})
+	}
 	// (f) counter wrap: solve the nonce so that J0 mod 2^32 = 2^32 - j
 	for _, kn := range []string{"std", "s4"} {
 		ref := refCipher(keyByName(kn))
@@ -154,7 +168,7 @@ func c06enumerate(emit func(c c06case)) {
 }
 
 func TestVX_C06(t *testing.T) {
-	r := vx.Begin("C06", partName(), "Seal vs gcmref(sm4ref) (bit-serial GF(2^128), SP 800-38D algorithms 1-5): (a) every plaintext length 0..1100 x aad classes {0,1,15,16,17,63,64,65,127,128,129,255,1100}; (b) every aad length 0..1100 x the same plaintext classes; (c, thorough) the full 1101x1101 square; (d) nonce lengths 1..300 x {0,1,16,17,255}^2; (e) tag sizes 12..16; (f) counter wrap: nonces of length 16/17/32/128 *solved* by field inversion so that J0 mod 2^32 = 2^32-j, j=0..40, x plaintext lengths that put the wrap inside every kernel width and the tail. Keys {standard sample, zero, seeded}. Shape=(group, key, ptlen, aadlen, noncelen, tag, path)")
+	r := vx.Begin("C06", partName(), "Seal vs gcmref(sm4ref) (bit-serial GF(2^128), SP 800-38D algorithms 1-5): (a) every plaintext length 0..1100 x aad classes {0,1,15,16,17,63,64,65,127,128,129,255,1100}; (b) every aad length 0..1100 x the same plaintext classes; (c, thorough) the full 1101x1101 square; (d) nonce lengths 1..300 x {0,1,16,17,255}^2; (e) tag sizes 12..16; (g) large messages: plaintext resp. aad lengths {2047,2048,2049,4095,4096,4097,8192,8447,16389,65535,65536,65537} [thorough: also 2^20-1, 2^20, 2^20+17] x small other part x nonce {12,16}, and both large; (f) counter wrap: nonces of length 16/17/32/128 *solved* by field inversion so that J0 mod 2^32 = 2^32-j, j=0..40, x plaintext lengths that put the wrap inside every kernel width and the tail. Keys {standard sample, zero, seeded}. Shape=(group, key, ptlen, aadlen, noncelen, tag, path)")
 	defer r.End()
 	selfCheck()
 	if raw, ok := vx.Replay(partName()); ok {
